@@ -21,8 +21,6 @@ LEVEL = "model_checking"
 _lock = threading.Lock()
 _counter = itertools.count()
 
-KF_PHRASE = ("PhraseScorer::seek_danger debug assertion `target >= doc()` is stricter than its callers: Exclude::contains and "
-             "BufferedUnionScorer::seek_danger probe a member with a smaller target (panic in builds with debug assertions)")
 KF_BOOLRANGE = ("RangeQuery on a bool FAST field fails with InvalidArgument 'Expected term with u64, i64, f64 or date': the fast-field "
                 "range path accepts the Bool type but cannot convert its bounds (the same range on a non-fast bool field works)")
 KF_FUZZYPREFIX = ("FuzzyTermQuery::new_prefix with distance 2 is not closed under extension: a word whose proper prefix is within "
@@ -80,7 +78,7 @@ def prepass(ctx, events, seen=None):
     for e in events:
         if e.get("ev") == "panic":
             msg = re.sub(r"\d+", "N", e.get("msg", ""))[:200]
-            what = ("C03: " + KF_PHRASE + f" [panic during search: {msg}]") if "should be greater than or equal to doc" in msg else "C03: panic during search: " + msg
+            what = "C03: panic during search: " + msg
         elif e.get("ev") == "error":
             err = re.sub(r"\d+", "N", e.get("err", ""))[:200]
             what = ("C03: " + KF_BOOLRANGE) if "Expected term with uN, iN, fN or date" in err and "Bool" in err else "C03: search returned an error: " + err
@@ -262,8 +260,6 @@ def known_finding_runs(ctx):
     qs = [
         {"k": "fuzzy", "f": "tag", "t": [1, 1, 2], "d": 2, "tr": False, "prefix": True},
         {"k": "range", "f": "flag", "lo": {"b": "in", "v": 1}, "hi": {"b": "in", "v": 1}},
-        {"k": "bool", "cl": [{"o": "should", "q": {"k": "all"}}, {"o": "mustnot", "q": {"k": "phrase", "f": "title", "ts": ["t1", "t0"], "slop": 0}}],
-         "msm": 1, "explicit": False},
     ]
     cp = ctx.path("kf_queries.ndjson")
     vlib.write_ndjson(cp, qs)
@@ -273,8 +269,7 @@ def known_finding_runs(ctx):
     before = ctx.cov["traces_validated_against_impl"]
     validate(ctx, vlib.read_ndjson(tp), "kf", seen=seen)
     ctx.cov["traces_validated_against_impl"] = before
-    ctx.cov["recorded_findings_reproduced"] = {"bool_fast_range": any(KF_BOOLRANGE in s for s in seen), "phrase_assertion": any(KF_PHRASE in s for s in seen),
-                                                "fuzzy_prefix_distance_2": any(KF_FUZZYPREFIX in s for s in seen)}
+    ctx.cov["recorded_findings_reproduced"] = {"bool_fast_range": any(KF_BOOLRANGE in s for s in seen), "fuzzy_prefix_distance_2": any(KF_FUZZYPREFIX in s for s in seen)}
 
 
 def binding_selftest(ctx, rand_events, stripe_head):
@@ -323,8 +318,8 @@ def run(ctx):
                         "documents are identified through the unique `id` fast field (first value)",
                         "phrase slop is only generated for two distinct terms (|gap - 1| <= slop, as documented); fuzzy distance 2 only without "
                         "transposition-cost-one; phrase-prefix prefixes expand to fewer than max_expansions terms",
-                        "default generators steer around the recorded findings (phrase scorer under MustNot / inside a probed union, "
-                        "range on a bool fast field); dedicated sub-runs reproduce them"]
+                        "default generators steer around the recorded findings (range on a bool fast field, prefix fuzzy with distance 2); "
+                        "dedicated sub-runs reproduce them"]
     model_checking(ctx)
     replay_generated(ctx)
     if ctx.quick:
